@@ -18,6 +18,7 @@
   * success of the extraction (`= .ok …`): `NonLinearError`, `ZeroDivisionError` (`x / Constant(0)`),
     `NoObjectiveError` are modelled as `.error`, so `NoConstDivZero` is not needed separately.
 -/
+import Optyx.Props.Glue
 import Optyx.Lemmas.CoeffsLP
 import Optyx.Lemmas.CoeffsTotal
 import Optyx.Drive.Analysis
